@@ -17,6 +17,7 @@ fn replay_case(prop: &str, case: &Value) -> Vec<Violation> {
     match case["engine"].as_str().unwrap_or("") {
         "tok" => props::tok::replay(prop, case),
         "pair" => props::pair::replay(case),
+        "layout11" | "layout12" | "layout13" => props::layout::replay(case),
         "marker" => props::marker::replay(case),
         "cli" => props::cli::replay(prop, case),
         "time" | "time-mono" => props::time::replay(case),
@@ -78,6 +79,7 @@ fn main() {
         "C05" => props::time::run(&r),
         "C06" => props::marker::run(&r),
         "C20" => props::cli::run(&r),
+        "C11" | "C12" | "C13" => props::layout::run(&r, prop),
         "C09" => props::tag::run(&r),
         "C10" => props::pair::run(&r),
         _ => {
